@@ -3,7 +3,7 @@ from common import T_COMMON
 CFG = dict(
     gen=[dict(spec="transform.json", out="Transform.lean"), dict(spec="trees.json", out="Trees.lean"),
          dict(spec="render.json", out="Render.lean")],
-    modules=["PolyVerif.Props.C16", "PolyVerif.Props.C16Prims", "PolyVerif.Props.C16Mesh"],
+    modules=["PolyVerif.Props.C16", "PolyVerif.Props.C16Prims", "PolyVerif.Props.C16Mesh", "PolyVerif.Props.C16TreeHit"],
     theorems=[
         # geometry facts about the regenerated AABB code / the hand-modelled slab test (over ℝ)
         "aabb_lower_bound", "aabb_contains_mono", "aabb_distance_mono", "slab_mono", "slab_sound", "aabb_encapsulate_contains",
@@ -27,8 +27,10 @@ CFG = dict(
         "prims_bvh_built_hit_eq_hitlist", "slab_rejects_point_range", "bvh_differs_on_point_range",
         # round 2 (Props/C16Mesh.lean): rendering.Mesh.Hit / Hit2 through the octree = the exhaustive triangle loop
         "traverse_foldl_eq_pruned", "meshHit_eq_meshHit2", "mesh_hit_eq_hitlist", "mesh_built_hit_eq_hitlist",
+        # round 2 (Props/C16TreeHit.lean): rendering.Tree.Hit (octree over the items' boxes) = HitList.Hit for real primitives
+        "tree_built_hit_eq_hitlist",
     ],
-    helper_theorems=["sphereHit_eq", "rectHit_eq", "rayIntersectsTri_eq", "prim_box_wf'", "listHit_guard", "listHit_congr_on"],
+    helper_theorems=["sphereHit_eq", "rectHit_eq", "rayIntersectsTri_eq", "prim_box_wf'", "listHit_guard", "listHit_congr_on", "listHit_map", "mkElems_lookup"],
     streams=[dict(name="c16", n=dict(quick=150, thorough=6000)),
              dict(name="c16prims", n=dict(quick=400, thorough=20000)),
              dict(name="c16more", n=dict(quick=120, thorough=5000))],
